@@ -245,10 +245,27 @@ def check_add(ctx, tu, f):
     droot = 'v:%s#%d' % (dvd['name'], did)
     from ..effects import writes
     ws = [w for w in writes(f) if w['path'] == (droot, '*', '.handle') and w['how'] == 'assign']
-    ok = len(ws) == 1
+    # the store may sit in a small helper `storeHandle(data, <handle>)`: it assigns its second parameter to first->handle and returns that member
+    via = None
+    if not ws:
+        for n in f.calls():
+            a = f.call_args(n)
+            if len(a) != 2 or path(f, f.value_source(a[0]), resolve_refs=False) != (droot,):
+                continue
+            for g in f.callee_fns(n):
+                if g.clsq != f.clsq or len(g.params) != 2:
+                    continue
+                p0 = 'v:%s#%d' % (g.params[0]['name'], g.params[0]['id'])
+                gw = [w for w in writes(g) if w['how'] == 'assign']
+                if len(gw) == 1 and gw[0]['path'] == (p0, '*', '.handle') and root_var_id(path(g, g.value_source(gw[0]['rhs']), resolve_refs=False)) == g.params[1]['id'] \
+                        and len([x for x in writes(g)]) == 1:
+                    grets = g.return_nodes()
+                    if grets and all(g.kids(r) and path(g, g.value_source(g.kids(r)[0])) == (p0, '*', '.handle') and g.pos_dominates(gw[0]['pos'], g.pos(r)) for r in grets):
+                        via = (n, a[1])
+    ok = len(ws) == 1 or via is not None
     detail = '%d assignments to data->handle' % len(ws)
     if ok:
-        rhs = f.strip_all_casts(ws[0]['rhs'])
+        rhs = f.strip_all_casts(ws[0]['rhs'] if ws else via[1])
         while f.is_construct(rhs) and len(f.nodes[rhs].get('args', [])) == 1:
             rhs = f.strip_all_casts(f.nodes[rhs]['args'][0])
         ok = f.is_call(rhs) and (f.callee(rhs) or {}).get('name') == f.name
@@ -277,6 +294,8 @@ def check_add(ctx, tu, f):
         v = f.strip_all_casts(ks[0]) if ks else None
         while v and f.is_construct(v) and len(f.nodes[v].get('args', [])) == 1:
             v = f.strip_all_casts(f.nodes[v]['args'][0])
+        if via is not None and v == via[0]:
+            continue          # the helper returns first->handle (checked above)
         if not v or path(f, v) != (droot, '*', '.handle'):
             okr = False
     ctx.ob('C16.W3', f, 'the caller receives that handle', okr)
